@@ -161,7 +161,7 @@ def evaluate(case):
                         if depth == 0 and e[4]["result"] is True:
                             if e[4]["fid"] not in already:
                                 n_ok += 1
-                            elif already[e[4]["fid"]] >= call_t - 1e-9:
+                            elif already[e[4]["fid"]] >= call_t - 1e-3:  # (same virtual instant: the clock ticks 1e-7 per reading)
                                 n_tie += 1
                         if e[4]["result"] is True:
                             already.setdefault(e[4]["fid"], e[1])
